@@ -42,7 +42,8 @@ LEVEL = 'exploration'
 RULE = ('roundtrip: one case = one wallet (account set drawn from seeded / key-only / watch-only / with PEM channel '
         'keys / single-address / regtest, fixed shapes + all orders in thorough + random sets) x one password (21 '
         'fixed boundary classes + random) driven through encrypt/save/reload/unlock/lock/add-account/re-encrypt; every '
-        'wrong-password trial is an evaluation (distinct = distinct (wallet, stage, password)); pack: real scrypt '
+        'wrong-password trial is an evaluation (distinct = distinct (wallet, stage, password); near misses and every 4th '
+        'bulk trial are also classified by the reference as padding-valid-by-chance or not); pack: real scrypt '
         'blobs; packfast: reference-built blobs (scrypt N<=16) x thousands of wrong passwords; crash: one case = '
         '(wallet shape, scenario, operation), every crash point inside is an evaluation (distinct = distinct point). '
         'non-trivial = every evaluation except wallets without any secret')
@@ -499,8 +500,10 @@ async def wrong_loop(rec, wallet, pw, passwords, stage, secret_idx, first_kind, 
             rec.hit('E2.near_miss_checked')
         if raised is not None:
             rec.log(f'E2.wrong_password_raises.{type(raised).__name__}')
-        if first_raw and ref.fast_padding_valid(ref.field_key(wp), first_raw):
-            rec.hit('E2.valid_padding_by_chance')
+        if first_raw and (near or n % 4 == 0):        # classified on a quarter of the bulk trials (cost)
+            rec.hit('E2.padding_classified')
+            if ref.fast_padding_valid(ref.field_key(wp), first_raw):
+                rec.hit('E2.valid_padding_by_chance')
         if r:
             rec.violation(f'C13/E2/wrong-password-unlocks/{stage}/{first_kind}',
                           f'{stage}: unlock({wp[:40]!r}) returned {r!r} although the wallet was encrypted with '
@@ -605,7 +608,7 @@ async def _roundtrip(rec, env, case):
     specs = [dict(s) for s in case['accounts']]
     r = random.Random(case['sub'] ^ 0x5eed)
     nwrong = case['wrong']
-    casekey = f"rt{case['sub']}|{pwcls}|{json.dumps(specs, sort_keys=True)}"
+    casekey = f"rt{case['sub']}|{pwcls}|{len(specs)}"
     ctx = f"password class {pwcls}, accounts {[s['kind'] + (':' + s['seed_class'] if 'seed_class' in s else '') for s in specs]}"
     wallet, path = env.new_wallet('wallet.json')
     accounts = [env.add_account(wallet, account_dict(s)) for s in specs]
@@ -613,6 +616,8 @@ async def _roundtrip(rec, env, case):
     secret_idx = [i for i, s in enumerate(snaps) if has_secret(s)]
     seed_classes = {s.get('seed_class', 'wordlist') for s in specs if s['kind'] == 'seeded'}
     needles = needles_for(snaps)
+    if seed_classes & set(NONWORDLIST):
+        ctx += f", seeds {[s['seed'] for s in snaps if s['seed']]}"
     nontrivial = bool(secret_idx)
     rec.case(casekey, nontrivial=nontrivial,
              sample={'password_class': pwcls, 'password': pw[:60], 'accounts': [s['kind'] for s in specs],
@@ -743,11 +748,14 @@ async def _roundtrip(rec, env, case):
     # -- stage 6: add an account while unlocked + encrypted, save, lock, save, reload, unlock
     extra = {'kind': r.choice(['seeded', 'keyonly']), 'sub': (case['sub'] * 31 + 17) % (2 ** 40), 'pem': r.choice([0, 1])}
     specs6 = specs + [extra]
+    while_locked = case['sub'] % 2 == 1
+    if while_locked:
+        w2.lock()                                  # the new account joins a locked wallet whose password is known
     acc = env.add_account(w2, account_dict(extra))
     snaps6 = snaps + [snapshot(acc)]
     needles6 = needles_for(snaps6)
     w2.save()
-    check_e3(rec, path, needles6, 'after-add-account-save', ctx)
+    check_e3(rec, path, needles6, 'after-add-account-while-locked-save' if while_locked else 'after-add-account-save', ctx)
     w2.lock()
     check_after_lock(rec, w2, snaps6, specs6, 'after-add-account-lock', ctx)
     w2.save()
